@@ -7,6 +7,7 @@ import (
 	"math/big"
 	"strconv"
 	"strings"
+	"unicode/utf16"
 )
 
 // isStrUnsignedDecimalLiteral reports whether value is a StrUnsignedDecimalLiteral
@@ -111,6 +112,8 @@ func (v Value) float64() float64 {
 		return value
 	case string:
 		return parseNumber(value)
+	case []uint16:
+		return parseNumber(string(utf16.Decode(value)))
 	case *object:
 		return value.DefaultValue(defaultValueHintNumber).float64()
 	}
